@@ -15,7 +15,7 @@ CONSTANTS NPeers, HandlerBound
 
 Peers == 1..NPeers
 Kinds == {"stream", "handler", "pending"}
-States == {"idle-stream", "in-handler", "in-listroots"}
+States == {"idle-stream", "in-handler", "in-listroots", "in-listroots-late"}   \* late: the request is registered but not yet written
 
 VARIABLES state,     \* the scenario: what every peer was doing when it vanished
           held,      \* held[p] \subseteq Kinds
@@ -25,7 +25,7 @@ vars == <<state, held, gone, ctxEnded>>
 
 HoldFor(s) == CASE s = "idle-stream" -> {"stream"}
                 [] s = "in-handler" -> {"stream", "handler"}
-                [] s = "in-listroots" -> {"stream", "handler", "pending"}
+                [] s \in {"in-listroots", "in-listroots-late"} -> {"stream", "handler", "pending"}
 
 Init == /\ state \in States
         /\ held = [p \in Peers |-> HoldFor(state)] /\ gone = {} /\ ctxEnded = {}
